@@ -433,5 +433,8 @@ fn main() {
     rep.sample(json!({"type": "Mat3A", "check": "row(2)[1] == to_cols_array()[1*3+2] == col(1)[2] == y_axis.z", "entries": "tagged NaN payloads"}));
     rep.sample(json!({"type": "Mat3::from_mat4_minor", "i": 1, "j": 2, "want": "columns 0,2,3 and rows 0,1,3 of the tagged 4x4"}));
     rep.sample(json!({"type": "Affine3A", "law": "transform_point3(p) = matrix3*p + translation on integer entries in [-3,3], p in {-2..2}^3, exact"}));
+    // every operator trait impl of the tree (inventory from the rustdoc JSON): reference, assign and
+    // scalar forms agree with the by-value form decided above
+    harness::opforms::run(&mut rep, "affine", harness::opforms::OPFORMS_AFFINE);
     std::process::exit(rep.finish());
 }
